@@ -38,6 +38,9 @@ def run_config(v, ctx, tftpd, tier, combo, rng):
     put("srv", send_files, "exist_long.bin", N.keyed_content("s-long", 5000))
     put("srv", send_files, "sub/in_sub.bin", N.keyed_content("s-sub", 700))
     put("srv", send_files, "exist_empty.bin", b"")
+    put("srv", send_files, "name with space.bin", N.keyed_content("s-space", 1200))
+    put("srv", send_files, "\u00fcn\u00ef c\u00f6d\u00e9 \u6587.bin", N.keyed_content("s-uni", 600))
+    put("srv", send_files, "L" * 180 + ".bin", N.keyed_content("s-long", 333))
     put("srv", send_files, "sub/empty_in_sub.bin", b"")
     if dist:
         put("rcv", recv_files, "exist_short.bin", N.keyed_content("r-short", 200))
@@ -45,9 +48,11 @@ def run_config(v, ctx, tftpd, tier, combo, rng):
         put("rcv", recv_files, "sub/in_sub.bin", N.keyed_content("r-sub", 900))
         put("rcv", recv_files, "only_rcv.bin", N.keyed_content("r-only", 100))
         put("rcv", recv_files, "exist_empty.bin", b"")
+        put("rcv", recv_files, "name with space.bin", N.keyed_content("r-space", 800))
+        put("rcv", recv_files, "\u00fcn\u00ef c\u00f6d\u00e9 \u6587.bin", N.keyed_content("r-uni", 450))
         put("rcv", recv_files, "sub/empty_in_sub.bin", b"")
     write(os.path.join(sb["outside"], "canary.txt"), b"outside canary")
-    targets = ["missing1.bin", "missing2.bin", "exist_short.bin", "exist_long.bin", "sub/in_sub.bin", "sub/missing_in_sub.bin", "only_rcv.bin", "exist_empty.bin", "sub/empty_in_sub.bin"]
+    targets = ["missing1.bin", "missing2.bin", "exist_short.bin", "exist_long.bin", "sub/in_sub.bin", "sub/missing_in_sub.bin", "only_rcv.bin", "exist_empty.bin", "sub/empty_in_sub.bin", "name with space.bin", "\u00fcn\u00ef c\u00f6d\u00e9 \u6587.bin", "L" * 180 + ".bin", "new name with space.bin", "n\u00e9w \u6587.bin"]
     reqs = [(kind, t, o) for kind in ("RRQ", "WRQ") for t in targets for o in OPTSETS]
     # requests that must be refused whatever their options say: also with an out-of-range option value
     bad = [(kind, t, o) for kind in ("RRQ", "WRQ") for t in targets for o in BAD_OPTSETS]
@@ -55,7 +60,7 @@ def run_config(v, ctx, tftpd, tier, combo, rng):
     reqs += bad[:20]
     rng.shuffle(reqs)
     if tier != "thorough":
-        reqs = reqs[:76]
+        reqs = reqs[:90]
     srv = N.Server(tftpd, sb["srv"], single=single, read_only=ro, overwrite=ow, keep=keep,
                    send_dir=sb["srv"] if dist else None, recv_dir=sb["rcv"] if dist else None, logdir=sb["logs"], shuffle=rng)
     pool = [N._sock(timeout=2.0) for _ in range(3)]
